@@ -77,3 +77,51 @@ func synthModels(r *rand.Rand) []synthModel {
 			Inits: []mInit{{"gw", fTensor(r, []int{3, 4}, -2, 2)}, {"gc", fTensor(r, []int{1, 3}, -2, 2)}, {"slope", fTensor(r, []int{2}, -2, 2)}}}},
 	}
 }
+
+// batchSynthModels: the generated models whose every operator acts per sample along the leading (batch) axis, used by the batch
+// relation recorder (Trace_Batch.tla) next to the repository's sample models.
+func batchSynthModels(r *rand.Rand) []synthModel {
+	var out []synthModel
+	for _, m := range synthModels(r) {
+		if m.name != "raw_constant_add" { // 4096 values per row: too long a JSON line for the trace specification
+			out = append(out, m)
+		}
+	}
+	return append(out,
+		synthModel{"gather_steps", mModel{
+			Nodes: []mNode{
+				{Op: "Gather", Attrs: []Attr{aI("axis", 1)}, Ins: []string{"x", "last"}, Outs: []string{"y"}}, // scalar index: "take the last time step"
+				{Op: "Gather", Attrs: []Attr{aI("axis", 2)}, Ins: []string{"x", "cols"}, Outs: []string{"z"}},
+				{Op: "Gather", Attrs: []Attr{aI("axis", -2)}, Ins: []string{"x", "first"}, Outs: []string{"f"}}},
+			Inputs: []mInput{dynInput("x", 4, 3)}, Outputs: []string{"y", "z", "f"},
+			Inits: []mInit{{"last", AbsTensor{Dt: "i64", Shape: []int{}, Data: []Elem{IntElem(-1)}}}, {"cols", itensor("i64", []int{0, 2})},
+				{"first", AbsTensor{Dt: "i64", Shape: []int{}, Data: []Elem{IntElem(0)}}}}}},
+		synthModel{"strided_same_convs", mModel{
+			Nodes: []mNode{
+				{Op: "Conv", Attrs: []Attr{aS("auto_pad", "SAME_UPPER"), aIs("strides", []int{2, 3})}, Ins: []string{"x", "k", "b"}, Outs: []string{"y"}},
+				{Op: "Conv", Attrs: []Attr{aS("auto_pad", "SAME_LOWER"), aIs("strides", []int{3, 2}), aIs("dilations", []int{1, 2})}, Ins: []string{"x", "k"}, Outs: []string{"z"}}},
+			Inputs: []mInput{dynInput("x", 2, 6, 5)}, Outputs: []string{"y", "z"},
+			Inits: []mInit{{"k", fTensor(r, []int{3, 2, 3, 2}, -2, 2)}, {"b", fTensor(r, []int{3}, -3, 3)}}}},
+		synthModel{"per_sample_reductions", mModel{
+			Nodes: []mNode{
+				{Op: "Softmax", Attrs: []Attr{aI("axis", 1)}, Ins: []string{"x"}, Outs: []string{"s"}},
+				{Op: "LogSoftmax", Attrs: []Attr{aI("axis", -1)}, Ins: []string{"x"}, Outs: []string{"ls"}},
+				{Op: "ReduceMax", Attrs: []Attr{aIs("axes", []int{1}), aI("keepdims", 0)}, Ins: []string{"x"}, Outs: []string{"m"}},
+				{Op: "ReduceMin", Attrs: []Attr{aIs("axes", []int{-1, 1})}, Ins: []string{"x"}, Outs: []string{"n"}},
+				{Op: "ArgMax", Attrs: []Attr{aI("axis", 2), aI("keepdims", 0)}, Ins: []string{"x"}, Outs: []string{"am"}}},
+			Inputs: []mInput{dynInput("x", 3, 4)}, Outputs: []string{"s", "ls", "m", "n", "am"}, Inits: []mInit{{"unused", fTensor(r, []int{2}, 0, 1)}}}},
+		synthModel{"per_sample_shapes", mModel{
+			Nodes: []mNode{
+				{Op: "Flatten", Attrs: []Attr{aI("axis", 1)}, Ins: []string{"x"}, Outs: []string{"f"}},
+				{Op: "Reshape", Attrs: []Attr{}, Ins: []string{"x", "shp"}, Outs: []string{"r"}},
+				{Op: "Transpose", Attrs: []Attr{aIs("perm", []int{0, 2, 1})}, Ins: []string{"x"}, Outs: []string{"t"}},
+				{Op: "Slice", Attrs: []Attr{}, Ins: []string{"x", "st", "en", "ax"}, Outs: []string{"sl"}},
+				{Op: "Concat", Attrs: []Attr{aI("axis", 1)}, Ins: []string{"x", "x"}, Outs: []string{"c"}},
+				{Op: "Unsqueeze", Attrs: []Attr{}, Ins: []string{"x", "ax1"}, Outs: []string{"u"}},
+				{Op: "MatMul", Attrs: []Attr{}, Ins: []string{"f", "w"}, Outs: []string{"mm"}},
+				{Op: "Expand", Attrs: []Attr{}, Ins: []string{"u", "eshp"}, Outs: []string{"e"}}},
+			Inputs: []mInput{dynInput("x", 2, 3)}, Outputs: []string{"f", "r", "t", "sl", "c", "u", "mm", "e"},
+			Inits: []mInit{{"shp", itensor("i64", []int{0, -1})}, {"st", itensor("i64", []int{1})}, {"en", itensor("i64", []int{3})}, {"ax", itensor("i64", []int{2})},
+				{"ax1", itensor("i64", []int{1})}, {"w", fTensor(r, []int{6, 2}, -2, 2)}, {"eshp", itensor("i64", []int{1, 2, 2, 3})}}}},
+	)
+}
